@@ -9,6 +9,8 @@
                           ctx: opaque tag for everything the statement says an item keeps (resource,
                                scope, schema URLs, metric name/unit/description/type/temporality/
                                monotonicity/metadata)
+                          (an item left at its defaults has no identity of its own: the recorder lends it the id of an
+                           indistinguishable item that entered -- such items are counted, not tracked; PayloadFill.tla)
      request  what a producer hands to the batching layer: a sequence of items
      batch    [items, reqs, size, state, ok]  one call of the export function: the items as found in
               it, the requests whose containers (resources) are present in it, its size in the
